@@ -101,6 +101,7 @@ class BcWorld(World):
                 self.tags = simlib.boundary_tags(raw)
             self.pt = self.sim.problemType
             self.un = list(self.sim.Get_unknowns())
+            self.Lc = float(np.ptp(self.sim.mesh.coord[self.sim.mesh.nodes], axis=0).max())  # characteristic length
             self.Nn = self.sim.mesh.Nn
             self.used_nodes = np.array(self.sim.mesh.nodes)
         self.backend = "scipy"
@@ -115,8 +116,16 @@ class BcWorld(World):
 
     # ------------------------------------------------------------------ generation
     def _anchored(self):
-        """Enough Dirichlet dofs to remove rigid/constant modes (heuristic used only to enable `solve`)."""
-        return len(set(self.dir_dofs)) >= (3 * len(self.un) if self.actor != "Beam" else len(self.un))
+        """Enough Dirichlet dofs to remove rigid/constant modes (heuristic used only to enable `solve`; linear solves
+        of a system that is singular anyway are discarded by the measured condition number)."""
+        nd = len(self.un)
+        if self.actor == "HyperElastic":
+            # no dense reference decides singularity for the Newton path: every component held on >= 2 nodes
+            comps = {}
+            for d in set(self.dir_dofs):
+                comps.setdefault(d % nd, set()).add(d // nd)
+            return all(len(comps.get(c, ())) >= 2 for c in range(nd))
+        return len(set(self.dir_dofs)) >= (3 * nd if self.actor != "Beam" else nd)
 
     def gen_op(self, rng, frng):
         w = {"dirichlet": 4, "load": 2.5, "bc_init": 0.4, "backend": 1.5, "lagrange": 0.8, "connection": 0, "solve": 4 if self._anchored() else 0}
@@ -450,7 +459,9 @@ class BcWorld(World):
         dd, dv = np.array(self.dir_dofs, dtype=int), np.array(self.dir_vals, dtype=float)
         known = np.unique(dd)
         uD = np.array([dv[dd == d].sum() for d in known])
+        # a displacement of 1e-12 x the size of the domain is noise in any unit system (all-zero problems)
         uscale = max(refs.maxabs(u), refs.maxabs(uD), 1e-300)
+        ufloor = 1e-12 * self.Lc if self.actor != "Thermal" else 1e-12 * max(refs.maxabs(uD), 1.0)
         if nonlinear or not self.n_lagrange:
             if known.size and not refs.maxabs(u[known] - uD) <= 1e-12 * uscale:
                 i = int(np.argmax(np.abs(u[known] - uD)))
@@ -464,15 +475,15 @@ class BcWorld(World):
         tol_f = (1e3 * EPS * cond + 1e-10) if direct else 10 * cond * ITER_RTOL
         if self.n_lagrange:
             # constraints through multipliers: satisfied to solver accuracy
-            if known.size and not refs.maxabs(u[known] - uD) <= tol_f * uscale:
+            if known.size and not refs.maxabs(u[known] - uD) <= tol_f * uscale + ufloor:
                 raise Violation("constraint-not-held", f"Lagrange path: Dirichlet dofs off by {refs.maxabs(u[known] - uD):.3e} (scale {uscale:.3e}, cond {cond:.2e})")
             for dofs, coefs, val in info["lag"]:
                 g = float(coefs @ u[dofs] - val)
-                if not abs(g) <= tol_f * max(uscale * refs.maxabs(coefs), abs(val), 1e-300):
+                if not abs(g) <= tol_f * max(uscale * refs.maxabs(coefs), abs(val), 1e-300) + ufloor * refs.maxabs(coefs):
                     raise Violation("multipoint-constraint-violated", f"connection on dofs {dofs.tolist()}: c.u - value = {g:.3e} (scale {uscale:.3e}, cond {cond:.2e})")
             ctx.checked()
         # equality with the dense reference
-        if not refs.maxabs(u - uref) <= tol_f * max(refs.maxabs(uref), uscale):
+        if not refs.maxabs(u - uref) <= tol_f * max(refs.maxabs(uref), uscale) + ufloor:
             raise Violation("solution-differs-from-reference", f"max|u - u_ref| = {refs.maxabs(u - uref):.3e}, scale {uscale:.3e}, cond {cond:.2e}, backend {self.backend if not self.n_lagrange else 'direct (Lagrange)'}, duplicates {len(dd) - known.size}")
         ctx.checked()
         # the free dofs satisfy the assembled equations (residual orthogonal to the constraint null space)
@@ -484,7 +495,7 @@ class BcWorld(World):
             Q, _ = np.linalg.qr(info["C"].T)
             r = r - Q @ (Q.T @ r)
         tol_r = (1e3 * EPS * cond + 1e-10) if direct else 10 * ITER_RTOL * max(1.0, cond * 1e-3)
-        if free.size and not refs.maxabs(r) <= tol_r * max(rs, 1e-300):
+        if free.size and not refs.maxabs(r) <= tol_r * max(rs, 1e-300) + refs.maxabs(info["K"]) * ufloor:
             raise Violation("equations-not-satisfied", f"residual on free dofs {refs.maxabs(r):.3e}, scale {rs:.3e}, cond {cond:.2e}, backend {self.backend}")
         ctx.checked()
         return "ok"
